@@ -25,6 +25,8 @@ def run(rep):
     import c03
     rep.guard(c03.t3, rep, w)     # precedence levels: the table the binary-operator parser climbs
     rep.guard(c04.b3, rep, w)
+    import c13
+    rep.guard(c13.u2, rep, w)     # seq[a..b]: the bounds the operator's definition accepts
 
 
 def arm_opcodes(w, f):
